@@ -1219,7 +1219,14 @@ func (r condition) string() string {
 		pad = ``
 	}
 
-	s := r.kw + pad + r.op.String() + pad + val
+	var op string
+	if r.op != nil {
+		// a ValidityPolicy may have accepted
+		// an instance without an operator
+		op = r.op.String()
+	}
+
+	s := r.kw + pad + op + pad + val
 	if r.cfg.positive(parens) {
 		s = `(` + pad + s + pad + `)`
 	}
